@@ -450,6 +450,10 @@ def k13_citations(ctx, pid: str):
             idx = val.args[0]
             want = [s for s in idx.symbols() if s.startswith("index(")]
             ok = len(want) == 1 and idx == Aff.sym(want[0]) + 1 and repr(CIT) in want[0] and "references" in want[0]
+            if not ok and absent and len(appends) == 1 and appends[0][3] and appends[0][3][0] == CIT:
+                # the reference was appended on this path: its 1-based index is the new length of the list
+                lens = [s for s in idx.symbols() if s.startswith("len(") and "references" in s]
+                ok = len(lens) == 1 and idx == Aff.sym(lens[0])
             written_formats.append(val.fmt)
         out.append(("K13.writer", name, ok, det))
         okpos = isinstance(key, Aff) and key == Aff.sym("idx") and "citation" in repr(obj)
